@@ -73,3 +73,75 @@ CLAIMED.update({
                     'Freshness after a namespace disconnect is a recorded finding.', 'design_ref': '8.16', 'technique': GEN,
             'note': TB + 'engine.io get_session returns one dict per live connection; session() context manager not yet under contract.'},
 })
+
+# ---- refreshed notes for checks whose coverage grew after they were first claimed
+CLAIMED['C06']['note'] = TB + ('call() is under contract with the Event.wait model (the only thing that sets the private event is the private callback); '
+                               'ids are values off the wire (never the private counter sentinel, repaired in 057a35d); emit on pub/sub managers may '
+                               'address session ids of other hosts, so "the sid was issued here" is not required of emit.')
+CLAIMED['C08']['text'] = ('Unbounded proof of the client-side bookkeeping: _handle_eio_message (type selection, binary reassembly), _handle_connect (first/'
+                          'repeated acceptance), _handle_disconnect (handler once, namespace forgotten, connected flag), _handle_error, _handle_eio_disconnect '
+                          '(every connected namespace told once, tables emptied), emit namespace guard. One known finding (DISCONNECT for a namespace '
+                          'that is not connected runs the handler), pinned by an upstream test and therefore recorded, not repaired.')
+CLAIMED['C08']['note'] = TB + ('the body of Client.connect() (wait loop over namespaces) and _handle_eio_connect are not under contract: connect() is used through an '
+                               'assumed summary; engine.io client disconnect() contract assumed.')
+CLAIMED['C09']['note'] = TB + 'call() is under contract with the Event.wait model; engine.io client send() queues one frame (assumed).'
+
+CLAIMED.update({
+    'C01': {'text': 'PARTIAL. Proved without bound (structural induction encoded as a contract on the recursive function): _data_is_binary finds a byte string '
+                    'at any depth of lists/tuples/dicts and nothing else; Packet.__init__ promotes EVENT/ACK to BINARY_EVENT/BINARY_ACK exactly when the '
+                    'payload contains one (and only those types); add_attachment counts attachments and reports completion exactly at the announced count. '
+                    'NOT proved: the text header scanner/printer (encode/decode string code) and the placeholder substitution '
+                    '(_deconstruct_binary_internal/_reconstruct_binary_internal): z3/cvc5 string theories did not decide int(s[a:b]) and replace chains '
+                    '(see DESIGN.md 10); a change confined to those functions is not detected by this check.',
+            'design_ref': '8.1', 'technique': GEN,
+            'note': TB + 'json.dumps/loads round trip on JSON-compatible trees assumed; Lean lemma off_pos_iff (lemmas/Lemmas.lean) checked by lean and assumed in the codec world.'},
+    'C07': {'text': 'Unbounded proof per function plus composition lemmas: every PubSubManager/AsyncPubSubManager operation either applies the operation '
+                    'locally (exactly the Manager contract of C03) or publishes exactly one message carrying its arguments and host id; every _handle_* applies a '
+                    'received message to the local membership exactly as the single-server operation would, only for locally held session ids, and skips the '
+                    'issuing host for emits it already delivered; callbacks are relayed to and completed only on the issuing host. The cluster lemmas (any number '
+                    'of hosts, any placement; z3) derive "exactly the single-server recipients, each from exactly one host" from those contracts and the '
+                    'freshness of session ids.', 'design_ref': '8.7', 'technique': GEN + '; composition lemmas over abstract views',
+            'note': TB + 'the channel is an ordered, lossless broadcast (assumed: _publish/_listen are the backend\'s); the race clause (membership change vs. in-flight '
+                         'message) follows from per-host atomic application and is argued in DESIGN.md, not mechanised; backends (redis/kafka/kombu/zmq) not under contract.'},
+    'C10': {'text': 'Unbounded proof: _handle_eio_disconnect starts a reconnection effort exactly when reconnection is enabled, the loss was not requested by either '
+                    'side and no effort exists; _handle_reconnect (loop invariant over the attempt counter, symbolic real-valued delays) waits before attempt k '
+                    'for a delay within min(delay*2^(k-1), max) +/- randomization, re-issues connect() with the recorded url/headers/auth/transports/namespaces, '
+                    'stops at the first success or after reconnection_attempts attempts, and ends without a further attempt when the abort event is set.',
+            'design_ref': '8.10', 'technique': GEN,
+            'note': TB + 'random.random() in [0,1); Event.wait(timeout) model; Client.connect() used through an assumed summary (records the attempt; returns or raises '
+                         'ConnectionError); real arithmetic for delays (no floating point rounding).'},
+    'C14': {'text': 'Translation-validation style: every asyncio function under contract is verified against the SAME contract object as its threaded twin '
+                    '(async/await erased by a fixed rewriting whose idioms R1-R4 are modelled once), so both are proved to have the same packets, handler calls, '
+                    'results and exceptions as far as the contracts of C03-C13/C15-C20 constrain them; in addition every coroutine-vs-function dispatch site is '
+                    'classified (awaited iff coroutine function) and the pairs not under any contract are listed in the evidence as uncovered.',
+            'category': 'translation_validation', 'design_ref': '8.14', 'technique': GEN + ' applied to both members of each twin pair',
+            'note': TB + 'equivalence is relative to the contracts: behaviour the contracts leave open (log messages, internal task scheduling order) is not compared; '
+                         'twin pairs without a contract are listed under coverage.not_reached.'},
+    'C15': {'text': 'Unbounded proof with an explicit fault model: the listener loop body is executed with the received message ARBITRARY (any value, any type) and '
+                    'with every _handle_* and decoding step allowed to raise any Exception; the loop invariant "the listener is still consuming" is preserved on every '
+                    'path (the only exits are those of the channel generator). Each _handle_* is proved to ignore messages carrying the local host id and '
+                    'acknowledgements addressed to another host.', 'design_ref': '8.15', 'technique': GEN,
+            'note': TB + 'the channel generator (_listen) itself is the backend\'s and assumed not to terminate on its own; BaseException (task cancellation, KeyboardInterrupt) out of scope.'},
+    'C18': {'text': 'Unbounded proof: admin_connect accepts exactly per the authentication decision table written from the statement (disabled / equal dict / member '
+                    'of list / predicate true, sync and coroutine predicates) and registers nothing on refusal; the instrumentation wrappers '
+                    '(_trigger_event, _emit, _basic_enter_room, _basic_leave_room) call the original exactly once with the caller\'s arguments, return its result, '
+                    'let its exception through unchanged, and otherwise only emit to the admin namespace; read-only mode registers no mutating admin handler.',
+            'design_ref': '8.18', 'technique': GEN,
+            'note': TB + 'the wrapped server is an external object whose uses are recorded (every attribute chain and call); periodic stats task and the '
+                         'engine.io-level wrappers (_eio_*) not under contract.'},
+    'C19': {'text': 'Rely/guarantee proof over all interleavings at the granularity the property names: each handler closure registered by connect() is an action with a '
+                    'verified contract; receive()/emit()/call() are verified with the environment relation ENV (reflexive-transitive closure of those actions, '
+                    'lemmas env.* proved by z3) applied before every Event operation and every read of the shared buffer/flag (threads) or inside every wait that '
+                    'suspends (asyncio). Proved: receive returns arrived[k] on its k-th return (ghost invariant arrived = returned ++ buffer); TimeoutError only with '
+                    'no signalled, unreturned event; DisconnectedError only after the final disconnect with every arrival returned; emit/call go to the client\'s '
+                    'namespace, retry over SocketIOError and raise DisconnectedError only after the end. One defect found and repaired (408e8f0).',
+            'design_ref': '8.19', 'technique': GEN + '; rely/guarantee with ghost history',
+            'note': TB + 'handlers of one client run one after another (engine.io read loop); Event.set/clear/wait are atomic; the arrival instant of an event is the '
+                         'signal (input_event.set()) of the catch-all handler; SimpleClient.connect()/disconnect() bodies not under contract.'},
+    'C20': {'text': 'Gate rule: (g1, syntactic over the real AST) the test is_connected/can_disconnect and the mark pre_disconnect are one atomic step; (g2/g3, proved from '
+                    'the verified manager contracts) once marked or gone a session id is never connected again by another party, so the second terminator finds it '
+                    'not connected and does nothing. g1 fails for the threaded server (no lock between test and mark): recorded as known finding with a '
+                    'deterministic witness; g2/g3 are proved so that any other race is still reported.', 'design_ref': '8.20',
+            'technique': GEN + '; syntactic atomicity rule for the gate',
+            'note': TB + 'thread interleavings are not enumerated: the argument is the gate rule; the finding is not repaired (needs a lock in Server.disconnect/_handle_disconnect).'},
+})
